@@ -118,3 +118,91 @@ Definition downed (h : list ev) (k : rkey) : bool :=
    the same ingress id is reported withdrawn *)
 Definition known_c03 (h : list ev) (k : rkey) : bool :=
   downed h k && match spec_lookup h k with Some (true, _) => true | _ => false end.
+
+(* ================= the RIB unit's own counters (C15) =================
+   src/units/rib_unit/metrics.rs RibUnitMetrics, written by status_reporter.rs
+   (insert_ok -> insert_or_update, insert_failed) from unit.rs insert_payload, one
+   exploded route at a time. Session-wide withdrawals (Rib::withdraw_for_ingress)
+   touch no counter. Added NEXT TO rib_apply: nothing above is changed. *)
+From Coq Require Import ZArith.
+
+(* how insert_payload sees one route, given the store before it:
+   RNew    announcement, store.insert reports prefix_new      -> StoreInsertionEffect::RouteAdded
+   RMod    announcement, the (family, prefix) is already held  -> RouteUpdated
+   RWHeld  withdrawal, the (family, prefix) is held by SOME id -> Ok(report{prefix_new: false}): RouteUpdated, then RoutesWithdrawn(1)
+   RWMiss  withdrawal, nothing held for the (family, prefix)   -> Err(PrefixNotFound): insert_failed *)
+Inductive rclass := RNew | RMod | RWHeld | RWMiss.
+
+(* the (family, prefix) pairs the store holds at least one record for *)
+Definition rib_pfxs (r : rib) : gset (N * N) := set_map (fun k : rkey => k.1) (dom (recs r)).
+Definition rib_holds (r : rib) (fp : N * N) : bool := bool_decide (fp ∈ rib_pfxs r).
+
+Definition rclassify (r : rib) (p : payload) : rclass :=
+  if p_active p then (if rib_holds r (p_key p).1 then RMod else RNew)
+  else (if rib_holds r (p_key p).1 then RWHeld else RWMiss).
+
+(* rm_announced: the usize the code keeps, read as a two's-complement number (fetch_sub wraps: the
+   exposition shows 2^64 - n where this field says -n); the other fields only ever grow.
+   num_insert_retries follows rotonda-store's cas_count (contention) and is not modelled. *)
+Record rmet := MkRmet {
+  rm_unique : N;       (* rib_unit_num_unique_prefixes *)
+  rm_items : N;        (* rib_unit_num_items *)
+  rm_hard : N;         (* rib_unit_num_insert_hard_failures *)
+  rm_announced : Z;    (* rib_unit_num_routes_announced *)
+  rm_modified : N;     (* rib_unit_num_modified_route_announcements *)
+  rm_withdrawn : N;    (* rib_unit_num_routes_withdrawn *)
+  rm_wd_noann : N      (* rib_unit_num_route_withdrawals_without_announcements: no call site passes RoutesWithdrawn(0) *)
+}.
+Definition rmet_zero : rmet := MkRmet 0 0 0 0 0 0 0.
+
+Definition rmet_bump (m : rmet) (c : rclass) : rmet :=
+  match c with
+  | RNew => MkRmet (rm_unique m + 1) (rm_items m + 1) (rm_hard m) (rm_announced m + 1) (rm_modified m) (rm_withdrawn m) (rm_wd_noann m)
+  | RMod => MkRmet (rm_unique m) (rm_items m) (rm_hard m) (rm_announced m) (rm_modified m + 1) (rm_withdrawn m) (rm_wd_noann m)
+  | RWHeld => MkRmet (rm_unique m) (rm_items m) (rm_hard m) (rm_announced m - 1) (rm_modified m + 1) (rm_withdrawn m + 1) (rm_wd_noann m)
+  | RWMiss => MkRmet (rm_unique m) (rm_items m) (rm_hard m + 1) (rm_announced m) (rm_modified m) (rm_withdrawn m) (rm_wd_noann m)
+  end.
+Definition rmet_payload (r : rib) (m : rmet) (p : payload) : rmet := rmet_bump m (rclassify r p).
+
+(* the RIB with something carried along that sees every route and the store before it *)
+Definition ribx_payload {A} (f : rib -> A -> payload -> A) (s : rib * A) (p : payload) : rib * A :=
+  (rib_insert_payload s.1 p, f s.1 s.2 p).
+Definition ribx_apply {A} (f : rib -> A -> payload -> A) (s : rib * A) (u : update) : rib * A :=
+  match u with
+  | UBulk ps => fold_left (ribx_payload f) ps s
+  | _ => (rib_apply s.1 u, s.2)
+  end.
+Definition ribx_run {A} (f : rib -> A -> payload -> A) (a0 : A) (us : list update) : rib * A :=
+  fold_left (ribx_apply f) us (rib_empty, a0).
+
+(* the store and its counters *)
+Definition ribm_apply : rib * rmet -> update -> rib * rmet := ribx_apply rmet_payload.
+Definition ribm_run (us : list update) : rib * rmet := ribx_run rmet_payload rmet_zero us.
+
+(* the history as a reader would classify it: one class per route, in order; whether the very (family, prefix, id) had a record *)
+Definition rtrace_payload (r : rib) (t : list (rclass * bool)) (p : payload) : list (rclass * bool) :=
+  t ++ [(rclassify r p, bool_decide (is_Some (recs r !! p_key p)))].
+Definition rtrace (us : list update) : list (rclass * bool) := (ribx_run rtrace_payload [] us).2.
+Definition rclass_eqb (a b : rclass) : bool :=
+  match a, b with RNew, RNew | RMod, RMod | RWHeld, RWHeld | RWMiss, RWMiss => true | _, _ => false end.
+Fixpoint rcount (c : rclass) (t : list (rclass * bool)) : N :=
+  match t with [] => 0 | x :: t' => (if rclass_eqb x.1 c then 1 else 0) + rcount c t' end.
+(* withdrawals of a route that has no record (never announced by this id) *)
+Fixpoint rcount_wd_norec (t : list (rclass * bool)) : N :=
+  match t with
+  | [] => 0
+  | (c, had) :: t' => (if (rclass_eqb c RWHeld || rclass_eqb c RWMiss) && negb had then 1 else 0) + rcount_wd_norec t'
+  end.
+
+(* THE PROPERTY's reading of the metric descriptions, on the modelled store / history:
+   items = "items (e.g. routes) stored (withdrawn or not)" = records; announced = records a query shows active;
+   hard failures = insertions given up after retries = none in a store that never fails;
+   withdrawals without announcement = withdrawals of routes without a record. The three other counters are
+   taken as the code counts them (their texts leave the unit of counting open). *)
+Definition rib_n_active (r : rib) : N :=
+  N.of_nat (length (List.filter (fun kv : rkey * rrec => match rib_lookup r kv.1 with Some (true, _) => true | _ => false end)
+                                (map_to_list (recs r)))).
+Definition rmet_spec (us : list update) : rmet :=
+  let s := ribm_run us in
+  MkRmet (rm_unique s.2) (N.of_nat (size (recs s.1))) 0 (Z.of_N (rib_n_active s.1))
+         (rm_modified s.2) (rm_withdrawn s.2) (rcount_wd_norec (rtrace us)).
